@@ -1,6 +1,7 @@
 //! Checks that need the feature-guarded hooks of scnr (feature `verif`).
 mod c02c03;
 mod c13;
+mod c18;
 mod e1;
 mod e3;
 mod hist;
@@ -15,6 +16,7 @@ fn main() {
         "C03" => c02c03::run("C03", tier),
         "C06" => hist::run("C06", tier),
         "C13" => c13::run(tier),
+        "C18" => c18::run(tier),
         "C09" => hist::run("C09", tier),
         "C10" => hist::run("C10", tier),
         "C11" => hist::run("C11", tier),
